@@ -173,8 +173,11 @@ Definition perm_bits : N := 511.     (* 0777 *)
 Definition file_create_bits : N := 4095. (* open(2) honours 07777 *)
 Definition dir_create_bits : N := 1023.  (* mkdir(2) honours 01777 *)
 Definition create_mode (bits umask m : N) : N := N.ldiff (N.land m bits) umask.
-(* os.Chmod(path, os.FileMode(header.Mode)): only Perm() reaches the kernel *)
-Definition chmod_mode (m : N) : N := N.land m perm_bits.
+(* os.Chmod(path, header.FileInfo().Mode()): permission bits and setuid/setgid/sticky *)
+Definition chmod_mode (m : N) : N := N.land m file_create_bits.
+(* before the fix: os.Chmod(path, os.FileMode(header.Mode)) -- the tar bits 07000 are not
+   os.FileMode's setuid/setgid/sticky bits, only Perm() reached the kernel *)
+Definition chmod_mode_prefix (m : N) : N := N.land m perm_bits.
 
 Definition parent_is_dir (f : fs) (rel : path) : bool :=
   match rel with
@@ -312,10 +315,10 @@ Fixpoint wf_treeb (t : tree) : bool :=
 
 Fixpoint modes_okb (t : tree) : bool :=
   match t with
-  | File _ m _ => m <=? 511
+  | File _ m _ => m <=? 4095          (* permission bits, setuid, setgid, sticky *)
   | Link _ _ => true
   | Dir m _ ch =>
-      (m <=? 511) && forallb (fun nc => modes_okb (snd nc)) ch
+      (m <=? 1023) &&                 (* permission bits and sticky: mkdir(2) drops setuid/setgid *) forallb (fun nc => modes_okb (snd nc)) ch
   end.
 
 (* all paths at which the tree has a symlink *)
